@@ -197,4 +197,15 @@ theorem ofb_partial_eq_keystream (C : Cipher) (hC : C.Valid) (hbs : C.bs < 256) 
   applyPartial_spec (ofb_coreSpec C hC hbs iv hiv) w s j hR data (Or.inl rfl)
 
 
+/-- non-vacuity: the hypotheses of `ctr_partial_eq_keystream` are met by a fresh `Ctr32BE` core over the toy cipher with 4-byte
+    blocks and a 7-byte request (and the theorem then applies). -/
+example :
+    let C := Toy.cipher [1,2,3,4,5,6,7,8,9,10,11,12,13,14,15,16] 4
+    let f : Flavor := ⟨32, true⟩
+    applyPartialUnchecked (Ctr.core C f) 3 (Ctr.init C f [9, 9, 9, 9]) [1, 2, 3, 4, 5, 6, 7]
+      = xorB [1, 2, 3, 4, 5, 6, 7] (ksBytes (ksByte C.bs (ctrKs C f [9, 9, 9, 9])) (0 * C.bs) 7) := by
+  intro C f
+  exact ctr_partial_eq_keystream C (Toy.valid _ 4 (by decide)) (by decide) f (by decide) (by decide) 1 (by decide) [9, 9, 9, 9] (by decide)
+    (by decide) 3 _ 0 (ctr_init_rep C f _) _ (by decide)
+
 end Thm.C14
